@@ -18,6 +18,14 @@ import (
 //          returned as is), error code err (0 nil, 1 io.EOF, n≥2 injected errN)
 //   C15.tw <limit> <hex>:<err>[:<k>],…  writes; err is what the wrapped writer returns, k (optional)
 //                                        the short count it reports
+//   C15.copy <limit> <streamlen> <accept> <chunk>
+//          the ways the standard library itself drives the two wrappers (io.Copy, io.CopyN,
+//          io.ReadAll, io.WriteString, io.ReadFull): whatever optional interface they
+//          implement (io.WriterTo, io.ReaderFrom, io.StringWriter, io.ByteReader …) must keep
+//          the limits.  The limited reader is copied into a writer that accepts <accept> bytes
+//          and then fails, and read on afterwards; a stream is copied through the truncated
+//          writer.  The wrapped reader serves at most <chunk> bytes per call.  Answer: the
+//          constant "within=1 prefix=1" when the property holds (the model prints the constant).
 
 type injErr int
 
@@ -96,8 +104,108 @@ func evalC15(c string) Result {
 		return evalC15LR(atoi(f[1]), parseCallsC15(f[2]))
 	case "C15.tw":
 		return evalC15TW(atoi(f[1]), f[2])
+	case "C15.copy":
+		return evalC15Copy(atoi(f[1]), atoi(f[2]), atoi(f[3]), atoi(f[4]))
 	}
 	panic("bad op " + f[0])
+}
+
+// countingReader serves the counter stream (byte i is i%251) up to total bytes, at most chunk per
+// call, and records how much it was asked for (only the part that could be served counts as
+// requested: a request for more than the stream holds is not a request for those bytes).
+type countingReader struct {
+	pos, total, chunk int
+	requested         int
+}
+
+func (r *countingReader) Read(p []byte) (int, error) {
+	r.requested += len(p)
+	if r.pos >= r.total {
+		return 0, io.EOF
+	}
+	m := min(len(p), r.chunk, r.total-r.pos)
+	for j := 0; j < m; j++ {
+		p[j] = byte((r.pos + j) % 251)
+	}
+	r.pos += m
+	return m, nil
+}
+
+// failingWriter accepts `accept` bytes in all, then reports a short write with an error.
+type failingWriter struct {
+	accept int
+	got    []byte
+}
+
+func (w *failingWriter) Write(p []byte) (int, error) {
+	room := w.accept - len(w.got)
+	if len(p) <= room {
+		w.got = append(w.got, p...)
+		return len(p), nil
+	}
+	w.got = append(w.got, p[:max(room, 0)]...)
+	return max(room, 0), injErr(7)
+}
+
+func isCounterPrefixC15(b []byte) bool {
+	for i, x := range b {
+		if x != byte(i%251) {
+			return false
+		}
+	}
+	return true
+}
+
+func evalC15Copy(limit, streamLen, accept, chunk int) Result {
+	direct := "ok"
+	// 1. LimitReader under io.Copy into a failing destination, then read on
+	src := &countingReader{total: streamLen, chunk: max(chunk, 1)}
+	lr := ioutil.LimitReader(src, uint64(limit))
+	dst := &failingWriter{accept: accept}
+	_, _ = io.Copy(dst, lr)
+	rest, _ := io.ReadAll(lr)
+	var tail [8]byte
+	n, err := io.ReadFull(lr, tail[:])
+	switch {
+	case src.pos > limit:
+		direct = fail("copy-over-limit", "limit %d: io.Copy into a writer that fails after %d bytes, then ReadAll: %d bytes were taken from the wrapped reader", limit, accept, src.pos)
+	case !isCounterPrefixC15(dst.got) || len(dst.got) > limit:
+		direct = fail("copy-not-prefix", "limit %d: the destination got %d bytes that are not a prefix of the stream within the limit", limit, len(dst.got))
+	case len(dst.got)+len(rest) > limit:
+		direct = fail("copy-over-limit", "limit %d: %d bytes delivered to the destination and %d more to ReadAll", limit, len(dst.got), len(rest))
+	case n != 0:
+		direct = fail("copy-after", "limit %d: %d bytes read after ReadAll had returned (err %v)", limit, n, err)
+	}
+	// 2. TruncatedWriter driven by io.Copy (from a plain reader, so that an io.ReaderFrom of
+	// the writer is what gets used, and from one with WriteTo) and io.WriteString
+	if direct == "ok" {
+		under := &failingWriter{accept: 1 << 30}
+		tw := ioutil.NewTruncatedWriter(under, uint(limit))
+		total := 0
+		s1 := &countingReader{total: streamLen / 2, chunk: max(chunk, 1)}
+		n1, _ := io.Copy(tw, struct{ io.Reader }{s1})
+		total += int(n1)
+		rest := make([]byte, streamLen-streamLen/2)
+		for i := range rest {
+			rest[i] = byte((streamLen/2 + i) % 251)
+		}
+		k := len(rest) / 2
+		n2, _ := io.Copy(tw, strings.NewReader(string(rest[:k])))
+		n3, _ := io.WriteString(tw, string(rest[k:]))
+		total += int(n2) + n3
+		want := min(streamLen, limit)
+		switch {
+		case total != streamLen:
+			direct = fail("trunc-copy-count", "limit %d: %d of %d bytes reported written through io.Copy / io.WriteString", limit, total, streamLen)
+		case len(under.got) != want || !isCounterPrefixC15(under.got):
+			direct = fail("trunc-copy-forwarded", "limit %d: %d bytes forwarded (prefix of the stream: %v), want exactly the first %d", limit, len(under.got), isCounterPrefixC15(under.got), want)
+		}
+	}
+	impl := "within=1 prefix=1"
+	if direct != "ok" {
+		impl = "within=0"
+	}
+	return Result{Impl: impl, Direct: direct, Class: "copy"}
 }
 
 func evalC15LR(limit int, calls [][3]int) Result {
@@ -253,6 +361,12 @@ func genC15(rng *rand.Rand, tier string) (cases []string) {
 	if tier == "thorough" {
 		n = 200000
 	}
+	for i := 0; i < n/16; i++ {
+		limit := pick(rng, 0, 1, 5, 10, 100, 512, 4096, 32768, 32769, 40000, rng.IntN(3000))
+		streamLen := max(0, limit+pick(rng, -1, 0, 1, 10, 100, -limit/2, limit, 40000))
+		accept := pick(rng, 0, 1, limit/2, max(limit-1, 0), limit, limit+1, streamLen, rng.IntN(limit+2))
+		cases = append(cases, fmt.Sprintf("C15.copy %d %d %d %d", limit, streamLen, accept, pick(rng, 1, 3, 512, 32768, 100000)))
+	}
 	for i := 0; i < n; i++ {
 		limit := pick(rng, 0, 1, 2, 3, 5, 8, 13, rng.IntN(40))
 		if v, ok := dictInt(rng, 0, 600); ok && rng.IntN(12) == 0 {
@@ -309,6 +423,19 @@ func genC15(rng *rand.Rand, tier string) (cases []string) {
 
 func candsC15(c string) (res []string) {
 	f := strings.Split(c, " ")
+	if f[0] == "C15.copy" {
+		// smaller numbers, one field at a time
+		for i := 1; i <= 4; i++ {
+			for _, v := range []int{atoi(f[i]) / 2, atoi(f[i]) - 1} {
+				if v >= 0 && v != atoi(f[i]) {
+					g := append([]string{}, f...)
+					g[i] = fmt.Sprint(v)
+					res = append(res, strings.Join(g, " "))
+				}
+			}
+		}
+		return res
+	}
 	if f[2] == "-" {
 		return nil
 	}
